@@ -21,7 +21,9 @@ Abstractions (trusted base, exercised by the correspondence):
   `ast.parse(typ)` is the tree itself.  `Typ.name s` assumes `s` is a (possibly dotted) identifier;
 * `ast.unparse` followed by `ast.parse` is the identity on the emitted calls (the parser model reads the emitted
   calls), except that a `Name` whose id is not an identifier does not come back as a `Name` (`reparse` below);
-* the header docstring / `comment=` of the table (docstring emitter and parser) is not modelled; a class body keeps
+* the docstring emitter and parser that render / read the header docstring and the table's `comment=` are not
+  modelled: the model keeps the *text each emitter hands to the docstring emitter* (`tableHeaderText`, the payload of
+  `Stmt.docstring`), and the harness feeds that text to the real docstring emitter to compare; a class body keeps
   only the *kind* of each statement.
 * `repr` of a Literal member is `'` + member + `'` (members are plain: no quote, backslash, control character).
 * not modelled (never produced on the property's domain): `x_typ.sql.type_args` / `type_kwargs` / `default`,
@@ -550,20 +552,45 @@ def ColumnCall.view (c : ColumnCall) : Column :=
 structure IR where
   name : Str
   params : Params
+  /-- `intermediate_repr["doc"]`: the description of the interface itself (header docstring / table comment) -/
+  doc : Str := []
+  /-- `intermediate_repr["returns"]` is truthy -/
+  hasReturns : Bool := false
+  /-- `returns["return_type"]["doc"]` is truthy -/
+  returnsHasDoc : Bool := false
 deriving DecidableEq, Repr
 
-/-- `Table(tname, <meta>, Column(…), …)`; the keywords (`comment=`, `keep_existing=True`) are not modelled -/
+/-- `Table(tname, <meta>, Column(…), …, comment=…, keep_existing=True)` -/
 structure TableCall where
   tname : Str
   /-- the `Name` passed as second argument (`metadata` / `metadata_obj`) -/
   metaName : Str
   cols : List ColumnCall
+  /-- the header text behind `comment=`: what the emitter hands to the docstring emitter as `"doc"` (`none`: no
+      `comment=` is attempted); for a table built from a class, the class docstring -/
+  headerText : Option Str := none
 deriving DecidableEq, Repr
+
+/-- `emit.sqlalchemy_table`: the `"doc"` handed to the docstring emitter for `comment=`, attempted only
+    `if intermediate_repr.get("doc")`:  `doc.lstrip() + ("\n\n" if returns else "")`  (as repaired: the conditional
+    only chooses the separator in front of the `returns` section) -/
+def tableHeaderText (ir : IR) : Option Str :=
+  if ir.doc.isEmpty then none else some (lstrip ir.doc ++ (if ir.hasReturns then c!"\n\n" else []))
+
+/-- the expression before the repair, `doc.lstrip() + "\n\n" if returns else ""`: without a `returns` entry the
+    description was replaced by the empty string (kept for the record, see `C05.header_text_before_fix`) -/
+def tableHeaderTextBeforeFix (ir : IR) : Option Str :=
+  if ir.doc.isEmpty then none else some (if ir.hasReturns then lstrip ir.doc ++ c!"\n\n" else [])
+
+/-- `emit.sqlalchemy` / `emit.sqlalchemy_hybrid`: a docstring statement is emitted
+    `if intermediate_repr.get("doc") or returns.return_type.doc`; the `"doc"` handed to the docstring emitter is
+    `intermediate_repr["doc"]` itself -/
+def classHasDoc (ir : IR) : Bool := !ir.doc.isEmpty || ir.returnsHasDoc
 
 /-- one statement of an emitted class body, by kind -/
 inductive Stmt
-  /-- `Expr(Constant(str))`: the docstring -/
-  | docstring
+  /-- `Expr(Constant(str))`: the docstring; `text` = the `"doc"` the emitter handed to the docstring emitter -/
+  | docstring (text : Str)
   /-- `target = 'text'` -/
   | assignStr (target : Str) (v : Str)
   /-- `target = Column(…)` -/
@@ -597,31 +624,35 @@ def emitTableNamed (ir : IR) (name : Str) (tableName : Option Str) (force : Bool
   | .error e => .error e
   | .ok cols =>
     .ok (if name != c!"config_tbl" || ir.name.isEmpty then name else ir.name,
-         { tname := setValueStr (tableName.getD name), metaName := c!"metadata", cols := cols.map (·.2) })
+         { tname := setValueStr (tableName.getD name), metaName := c!"metadata", cols := cols.map (·.2),
+           headerText := tableHeaderText ir })
 
 /-- as the command line calls it (`gen`, `exmod`): `sqlalchemy_table(ir, table_name=ir["name"], force_pk_id=force)` -/
 def emitTable (force : Bool) (ir : IR) : Except String (Str × TableCall) :=
   emitTableNamed ir c!"config_tbl" (some ir.name) force
 
-/-- `emit.sqlalchemy(ir, table_name=ir["name"], force_pk_id=force)`; `hasDoc` = a docstring statement is emitted -/
-def emitClass (force : Bool) (hasDoc : Bool) (ir : IR) : Except String ClassDef :=
+/-- the docstring statement of the class / hybrid emission -/
+def headerStmts (ir : IR) : List Stmt := if classHasDoc ir then [Stmt.docstring ir.doc] else []
+
+/-- `emit.sqlalchemy(ir, table_name=ir["name"], force_pk_id=force)` -/
+def emitClass (force : Bool) (ir : IR) : Except String ClassDef :=
   match emitCols false force ir.params with
   | .error e => .error e
   | .ok cols =>
     .ok { name := ir.name,
-          body := (if hasDoc then [Stmt.docstring] else []) ++
+          body := headerStmts ir ++
                   (Stmt.assignStr c!"__tablename__" (setValueStr ir.name) ::
                   (cols.map (fun kc => Stmt.assignCol kc.1 kc.2) ++
                   [Stmt.funcDef c!"__repr__"])) }
 
 /-- `emit.sqlalchemy_hybrid(ir, table_name=ir["name"], force_pk_id=force)`: `force_pk_id` is handed on to
     `sqlalchemy_table(name="__table__", table_name=table_name or ir["name"], force_pk_id=force_pk_id)` -/
-def emitHybrid (force : Bool) (hasDoc : Bool) (ir : IR) : Except String ClassDef :=
+def emitHybrid (force : Bool) (ir : IR) : Except String ClassDef :=
   match emitTableNamed ir c!"__table__" (some ir.name) force with
   | .error e => .error e
   | .ok (target, tbl) =>
     .ok { name := ir.name,
-          body := (if hasDoc then [Stmt.docstring] else []) ++
+          body := headerStmts ir ++
                   [Stmt.assignStr c!"__tablename__" (setValueStr ir.name), Stmt.assignTable target tbl,
                    Stmt.funcDef c!"__repr__", Stmt.funcDef c!"create_from_attr"] }
 
@@ -645,6 +676,12 @@ def stmtColumn : Stmt → Except String ColumnCall
   | .assignTable _ _ => .error "unmodelled"      -- a `Table(…)` bound to another name than `__table__`
   | _ => .error "AttributeError"                 -- `assign.value.args` of a constant
 
+/-- `ast.get_docstring(class_def)`: the first statement, if it is a docstring -/
+def ClassDef.docText (cls : ClassDef) : Option Str :=
+  match cls.body.head? with
+  | some (.docstring t) => some t
+  | _ => none
+
 /-- `sqlalchemy_class_to_table(class_def)`: either the `__table__ = …` assignment itself (hybrid), or a `Table`
     call built from **every** assignment of the body except `__tablename__ = …` -/
 def classToTable (cls : ClassDef) : Except String (Sum (Str × TableCall) TableCall) :=
@@ -656,7 +693,7 @@ def classToTable (cls : ClassDef) : Except String (Sum (Str × TableCall) TableC
     | some (.assignStr _ nm) =>
       match mapE stmtColumn (cls.body.filter isColumnStmt) with
       | .error e => .error e
-      | .ok cols => .ok (.inr { tname := setValueStr nm, metaName := c!"metadata_obj", cols := cols })
+      | .ok cols => .ok (.inr { tname := setValueStr nm, metaName := c!"metadata_obj", cols := cols, headerText := cls.docText })
     | some _ => .error "unmodelled"
     | none => .error "StopIteration"
 
